@@ -28,6 +28,11 @@ type vSummary struct {
 
 var vRegs = []expr.Key{"a", "b", expr.IPKey}
 
+// vSpace2 is the key of the second memory space. It is deliberately the same
+// string as register "a": register keys and memory-space keys are separate
+// namespaces, so sharing a key must not create a dependency.
+const vSpace2 = expr.Key("a")
+
 func vSubset(keys []expr.Key) []expr.Key {
 	var r []expr.Key
 	for _, k := range keys {
@@ -101,7 +106,7 @@ func vMkInstr(s vSummary, addr model.Addr, tag int) *instruction {
 	for _, k := range s.out {
 		ins.outRegs[k] = struct{}{}
 	}
-	for _, k := range []expr.Key{"m", "n"} {
+	for _, k := range []expr.Key{"m", vSpace2} {
 		r, w := vAccess(s, k)
 		for i := 0; i < r; i++ {
 			ins.loads = append(ins.loads, expr.NewMemLoad(k, expr.Zero, 1))
@@ -168,7 +173,7 @@ func vAccess(s vSummary, k expr.Key) (loads, stores int) {
 }
 
 func vMemAccess(s vSummary) bool {
-	for _, k := range []expr.Key{"m", "n"} {
+	for _, k := range []expr.Key{"m", vSpace2} {
 		if r, w := vAccess(s, k); r+w > 0 {
 			return true
 		}
@@ -178,7 +183,7 @@ func vMemAccess(s vSummary) bool {
 
 // vMemConflict: both access one memory space and at least one of them writes it.
 func vMemConflict(a, b vSummary) bool {
-	for _, k := range []expr.Key{"m", "n"} {
+	for _, k := range []expr.Key{"m", vSpace2} {
 		ar, aw := vAccess(a, k)
 		br, bw := vAccess(b, k)
 		if ar+aw > 0 && br+bw > 0 && aw+bw > 0 {
